@@ -16,7 +16,7 @@ PROPERTY = {
     'bounds': {'shapes': 'all mapping documents with <=4 nodes (quick) / <=6 (thorough), depth <=3, lists <=2, mappings <=2 keys',
                'sites': '1 site at any node (quick) / 2 sites (thorough)',
                'flags per site': 'none | priority in {-1,0,1} | delete in {T,F} | allow_new=True | safe in {T,F}; literal tags !force !weak !del !merge !new !unsafe !metadata{{..}}'},
-    'outside': ['arbitrary unicode scalars, anchors/aliases, block-style collections, multi-line block scalars', 'value-less !del (removes the key by design)',
+    'outside': ['arbitrary unicode scalars, anchors/aliases, block-style collections other than the 5 listed documents (c01_block), multi-line block scalars', 'value-less !del (removes the key by design)',
                 'keys equal to attribute names of the node classes', 'allow_new=False in a first document (error by design)'],
     'per_split_timeout': {'quick': 600, 'thorough': 1800},
     'wall_budget': {'quick': 1500, 'thorough': 7000},
@@ -161,6 +161,44 @@ def c01_scalars(split, ti, t, pp, p, dp, d, np_, sp, s):
     return same(cfg, expected)
 
 
+BLOCKS = [
+    # block-style collections with EMPTY entries (implicit nulls), repeated values, nested block lists and mappings
+    'tail: {T0}\n  -\n  -\n  - last\nz: 1\n',
+    'jobs: {T0}\n  retries: 3\n  slots: {T1}\n    -\n    - 4\n    -\n    - {{cpu: 2, _hint: }}\n  plain: {T2} [1, 1, 2, true, 1.5, x]\n',
+    'm: {T0}\n  x:\n  y:\n  w: {T1}\n    p:\n    q:\nn: {T2}\n  -\n  -\n',
+    'l: {T0}\n  - {T1}\n    -\n    -\n  - {T2}\n    - 1\n    - 1\n  -\n',
+    'e: {T0} {{a: , b: , c: {T1} [1, 1]}}\nf: {T2}\n  - ~\n  - null\n  -\n',
+]
+
+
+def c01_block(split, pos, pos2, t, pp, p, dp, d, np_, sp, s, t2, dp2, d2):
+    """block-style documents with empty entries: 1..2 tag sites on the collection nodes vs yaml.load of the untagged text"""
+    reset()
+    tpl = BLOCKS[split['doc']]
+    pos = pick(pos, 3)
+    pos2 = pick(pos2, 4)         # 3 = no second site
+    if pos2 <= pos:
+        return True
+    tags = {'T0': '', 'T1': '', 'T2': ''}
+    tags['T%d' % pos] = _tag('s0', t, pp, p, dp, d, np_, sp, s)
+    if pos2 < 3:
+        tags['T%d' % pos2] = _tag('s1', t2, False, 0, dp2, d2, False, False, False)
+    text = tpl.format(**tags)
+    plain = tpl.format(T0='', T1='', T2='')
+    with untraced():
+        expected = pyyaml.load(plain, Loader=pyyaml.Loader)
+    note(text=text, plain=plain, expected=repr(expected))
+    try:
+        cfg = Config.build(text, raw_yaml=True)
+    except Exception as e:
+        reraise_internal(e)
+        note(error=repr(e))
+        return False
+    wit('built')
+    note(got=repr(cfg))
+    return same(cfg, expected)
+
+
 ONE_FLAG = '(pp + dp + np_ + sp) <= 1'
 
 
@@ -198,6 +236,15 @@ HARNESSES = {
                            lambda tier: [{'style': st, '_pre': ('t != 0 or not (pp or np_)') if tier == 'quick' else 'True'} for st in STYLES],
                            pre=f'{ONE_FLAG} and (t == 0 or not (pp or dp or np_ or sp))',
                            doc='12 scalar texts x 6 YAML scalar styles (plain, quoted, block literal/folded) x symbolic flag site or literal tag', witnesses=('built',)),
+    'c01_block': Harness('c01_block', c01_block,
+                         [('pos', 'int', 0, 2), ('pos2', 'int', 0, 3), ('t', 'int', 0, len(LITERAL) - 1),
+                          ('pp', 'bool'), ('p', 'int', -1, 1), ('dp', 'bool'), ('d', 'bool'), ('np_', 'bool'), ('sp', 'bool'), ('s', 'bool'),
+                          ('t2', 'int', 0, 1), ('dp2', 'bool'), ('d2', 'bool')],
+                         lambda tier: [{'doc': i, 'pos': k, '_pre': 'pos == %d and (%s)' % (k, ('not np_ and not sp' if (i + k) % 2 == 0 else 'not pp and not dp') if tier == 'quick' else 'True')}
+                                       for i in range(len(BLOCKS)) for k in range(3)],
+                         pre=f'{ONE_FLAG} and (t == 0 or not (pp or dp or np_ or sp)) and (t2 == 0 or not dp2) and pos < pos2',
+                         doc='5 block-style documents with empty (implicit null) entries and repeated values; 1..2 tag sites on collection nodes',
+                         witnesses=('built',)),
     'c01_two_sites': Harness('c01_two_sites', c01_two_sites,
                              [('si', 'int', 0, 3), ('pos', 'int', 0, 5), ('pos2', 'int', 0, 5), ('t', 'int', 0, len(LITERAL) - 1),
                               ('pp', 'bool'), ('p', 'int', -1, 1), ('dp', 'bool'), ('d', 'bool'), ('np_', 'bool'), ('sp', 'bool'), ('s', 'bool'),
